@@ -6,6 +6,7 @@ records of the `mappyfile` logger.
 """
 from __future__ import annotations
 
+import copy
 import hashlib
 
 from .. import core, corpus, expect, gen, render, vocab
@@ -81,7 +82,41 @@ def judge(ctx, eng, nodes, label, slot=None, surface=None):
     if VIOL:
         res.violation("transform-result-not-wellformed", case, VIOL[:3], None)
         VIOL.clear()
+    # what loads returns belongs to the caller: no list or dictionary occurs twice inside one result ("nothing ... attached to a
+    # different object"), and editing a result in place does not reach what a later call returns (every later document in this
+    # process is judged against its own text, so a shared object would show there)
+    seen_ids = {}
+    stack = [("$", d)]
+    while stack:
+        path, x = stack.pop()
+        if isinstance(x, (list, dict)):
+            if id(x) in seen_ids:
+                res.violation("one-mutable-object-at-two-places-of-the-result", case, [seen_ids[id(x)], path], "separate objects", slot=slot)
+                break
+            seen_ids[id(x)] = path
+            for k2, v2 in (x.items() if isinstance(x, dict) else enumerate(x)):
+                stack.append((f"{path}.{k2}", v2))
+    res.count("results_walked_for_shared_objects")
+    for obj in [o for o in _mutables(d)]:
+        if isinstance(obj, list):
+            obj.append("edited by the caller")
+            if len(obj) > 1:
+                obj[0] = "edited by the caller"
+        else:
+            obj["zz_edited_by_the_caller"] = "x"
+    res.count("results_edited_in_place_after_judging")
     return d
+
+
+def _mutables(d):
+    out = []
+    stack = [d]
+    while stack:
+        x = stack.pop()
+        if isinstance(x, (list, dict)):
+            out.append(x)
+            stack.extend(x.values() if isinstance(x, dict) else x)
+    return out
 
 
 def run(ctx):
@@ -116,7 +151,8 @@ def run(ctx):
     for j in range(n):
         big = r.random() < 0.05
         opts = gen.GenOpts(gated=ctx.gated, max_objects=r.choice([150, 300, 500]) if big else 60, p_key=r.choice([0.15, 0.3, 0.5]),
-                           p_child=0.95 if big else 0.6, decay=1.0 if big else 0.6, dup=r.choice([0.0, 0.05, 0.15]))
+                           p_child=0.95 if big else 0.6, decay=1.0 if big else 0.6, dup=r.choice([0.0, 0.05, 0.15]),
+                           dup_blocks=r.choice([0.0, 0.0, 0.15]))
         nodes = gen.gen_document(r, opts, root="map" if big else None)
         nobj = sum(x.count() for x in nodes)
         depth = max(x.depth() for x in nodes)
